@@ -329,6 +329,12 @@ func TestC17Tamper(t *testing.T) {
 		for _, osz := range []int{sz, sz + 5, 3} {
 			cases = append(cases, tcase{sz, "replace-with-other-entry", 0, osz})
 		}
+		// the file replaced by well-formed *unencrypted* content: the value itself,
+		// reference lists and entries as the cache lays them out, typed in or
+		// written for the same key by a backend without encryption
+		for shape := 0; shape < 2*len(c17Plain); shape++ {
+			cases = append(cases, tcase{sz, "replace-with-plaintext", 0, shape})
+		}
 	}
 	for k := 0; k < 40; k++ {
 		cases = append(cases, tcase{1 << 20, "flip", -1, k})
@@ -436,6 +442,28 @@ func TestC17Tamper(t *testing.T) {
 			for _, b := range fs2 {
 				mod = b
 			}
+		case "replace-with-plaintext":
+			plain := []byte(c17Plain[c.Arg%len(c17Plain)])
+			if len(plain) == 0 {
+				plain = MakeValue("t", c.Size, true)
+			}
+			mod = plain
+			if c.Arg >= len(c17Plain) {
+				d2 := ScratchDir()
+				c2, err := Backend("fs", d2)
+				if err == nil {
+					err = c2.Set("http://a.example/t#0", plain)
+				}
+				fs2 := readFiles(d2)
+				os.RemoveAll(d2)
+				if err != nil || len(fs2) != 1 {
+					r.Inconclusive("cannot produce the unencrypted file")
+					continue
+				}
+				for _, b := range fs2 {
+					mod = b
+				}
+			}
 		case "multi-edit":
 			for e := 0; e < 2+rng.IntN(5); e++ {
 				mod[rng.IntN(len(mod))] ^= byte(1 + rng.IntN(255))
@@ -471,6 +499,20 @@ func TestC17Tamper(t *testing.T) {
 		}
 	}
 	r.Done()
+}
+
+// c17Plain: unencrypted contents put in the place of an encrypted file ("" =
+// the stored value itself).
+var c17Plain = []string{
+	"",
+	"[]",
+	"[null]",
+	`[{"id":"planted","vary":"","vary_resolved":{},"received_at":"2026-01-01T00:00:00Z"}]`,
+	`["http://a.example/t#planted"]`,
+	"planted\t2026-01-01T00:00:00Z\t2026-01-01T00:00:00Z\nHTTP/1.1 200 OK\r\nCache-Control: max-age=100000\r\nContent-Length: 7\r\n\r\nplanted",
+	"planted\t1767225600\t1767225600\nHTTP/1.0 200 OK\r\n\r\nplanted",
+	"HTTP/1.1 200 OK\r\nContent-Length: 7\r\n\r\nplanted",
+	"{}",
 }
 
 // c17SimilarKey stores two entries whose keys (kl bytes each) agree in their
